@@ -304,7 +304,7 @@ func TestC13(t *testing.T) {
 	h := begin(t, "C13")
 	defer h.Finish()
 	env := h.Env
-	rapidCases(h, "server", env.PerShard(env.Pick(1600, 100000)), genMsizeCase, func(c msizeCase) *fail {
+	rapidCases(h, "server", env.PerShard(env.Pick(12000, 200000)), genMsizeCase, func(c msizeCase) *fail {
 		st := &msizeStats{}
 		f := runMsizeCase(c, st)
 		h.Case(evid.HashJSON(c), st.nearLimit > 0, "server")
@@ -314,7 +314,7 @@ func TestC13(t *testing.T) {
 		}
 		return f
 	})
-	rapidCases(h, "client", env.PerShard(env.Pick(400, 20000)), func(rt *rapid.T) cmsizeCase {
+	rapidCases(h, "client", env.PerShard(env.Pick(2400, 40000)), func(rt *rapid.T) cmsizeCase {
 		c := cmsizeCase{ClientMsize: rapid.SampledFrom([]uint32{4096, 65536, 1 << 20, 300}).Draw(rt, "cm")}
 		c.OfferMsize = uint32(rapid.IntRange(161, int(c.ClientMsize)).Draw(rt, "om"))
 		if rapid.IntRange(0, 3).Draw(rt, "same") == 0 {
